@@ -752,6 +752,58 @@ func rulesC16(e *Engine, r *Report) {
 		}
 		r.Min("R16.11", "stop broadcasts in Start", n, 1)
 	}
+	// ---------------------------------------------------------------- R16.12
+	r.Rule("R16.12", "the tracker can always drain: an entry whose bytes are not all acknowledged is passed over only while more parts can still arrive (input open); once its input is closed - the senders are done - such an entry is deleted, because the part it waits for was dropped (the file changed) and will never come: otherwise `input closed and backlog empty` is never reached and a graceful or one-shot stop never ends")
+	if fn := needFn(e, r, "R16.12", "client.(*Broker).startTrack"); fn != nil {
+		ent := "next(range(make(map[string]*client.progressFile)))"
+		edges := e.ifEdges(fn, "("+ent+"#2.sent < "+ent+"#2.size)")
+		r.Min("R16.12", "`not all bytes acknowledged` tests in the tracker", len(edges), 1)
+		cls := labeler(
+			C("(phi(p0.chTransmitted|§) == nil)", "closed"), C("(phi(p0.chTransmitted|§) != nil)", "open"),
+			I("builtin(delete)(make(map[string]*client.progressFile), "+ent+"#1)", "dropped"),
+		)
+		for _, ed := range edges {
+			// from the `incomplete` edge to wherever the iteration goes on (the range header)
+			hdr := ed.B.Preds[0]
+			for _, p := range ed.B.Preds {
+				if p.Dominates(ed.B) {
+					hdr = p
+				}
+			}
+			var backs []ssa.Instruction
+			for _, p := range hdr.Preds {
+				if hdr.Dominates(p) && reaches(ed.B.Succs[ed.Succ], p, hdr) {
+					backs = append(backs, p.Instrs[len(p.Instrs)-1])
+				}
+			}
+			_ = cls
+			n := 0
+			for _, bi := range backs {
+				b := bi.Block()
+				conds := e.domConds(b)
+				if t, ok := bi.(*ssa.If); ok && b.Succs[0] != b.Succs[1] {
+					conds = append(conds, e.CondStr(t.Cond, b.Succs[0] == hdr))
+				}
+				if !hasStr(conds, "("+ent+"#2.sent < "+ent+"#2.size)") {
+					continue // not on the `incomplete` side
+				}
+				n++
+				open := hasStr(conds, "(phi(p0.chTransmitted|§) != nil)")
+				closed := hasStr(conds, "(phi(p0.chTransmitted|§) == nil)")
+				dropped := false
+				for d := b; d != nil && d != ed.B; d = d.Idom() {
+					for _, in := range d.Instrs {
+						if e.InstrStr(in) == "builtin(delete)(make(map[string]*client.progressFile), "+ent+"#1)" {
+							dropped = true
+						}
+					}
+				}
+				r.Check(open || (closed && dropped), "R16.12", fmt.Sprintf("client.(*Broker).startTrack: an incomplete entry is kept only while the input is open (b%d)", b.Index), e.InstrPos(bi),
+					"an entry with unacknowledged bytes is passed over without asking whether more parts can still arrive: after the senders are done it stays for ever and the tracker never drains", 1, conds...)
+			}
+			r.Min("R16.12", "ways the tracker passes over an incomplete entry", n, 1)
+		}
+	}
 }
 
 func shortPred(p string) string {
